@@ -46,7 +46,14 @@ func (c Config) String() string {
 	return fmt.Sprintf("ps=%d av=%d min=%d trunc=%d ci=%s maxb=%d", c.PageSize, c.AutoVacuum, c.MinCheckpointPageN, c.TruncatePageN, c.CheckpointInterval, c.MaxSyncWALBytes)
 }
 
+// forcedConfig, when set (flag -forcecfg), replaces the random configuration (soak runs around one configuration).
+var forcedConfig *Config
+
 func randConfig(r *rand.Rand) Config {
+	if forcedConfig != nil {
+		_ = r.Intn(7) // keep the PRNG stream roughly aligned
+		return *forcedConfig
+	}
 	pss := []int{512, 1024, 1024, 4096, 4096, 8192, 65536}
 	mins := []int{1, 2, 5, 10, 1000}
 	truncs := []int{0, 3, 20, 121359}
@@ -150,6 +157,7 @@ type World struct {
 	injConn   *sql.DB
 	useInject bool
 	injectVersioned bool
+	concurrentWriter bool // C02 thorough tier: a writer goroutine runs concurrently (schedule-dependent)
 	injRef    []byte // committed image just before the commit injected during the CURRENT operation (nil: none)
 	dir        string
 	dbPath     string
@@ -1010,6 +1018,7 @@ func main() {
 	shardK := fl.Int("shard", 0, "run only histories with index % shards == shard")
 	shardN := fl.Int("shards", 1, "number of shards")
 	concurrent := fl.Bool("concurrent", false, "mode c02: also run histories with a real concurrent writer goroutine (schedule-dependent, not replayable)")
+	forcecfg := fl.String("forcecfg", "", "use this configuration (ps,autovacuum,min,trunc,intervalNs,maxb) instead of a random one")
 	script := fl.String("script", "", "mode script: space-separated op tokens to run after OPEN (e.g. 'S CK-RESTART W ACK-TRUNCATE DDL SW')")
 	scriptCfg := fl.String("cfg", "4096,0,10,0,0,0", "mode script: ps,autovacuum,minCheckpointPageN,truncatePageN,checkpointIntervalNs,maxSyncWALBytes")
 	if err := fl.Parse(os.Args[1:]); err != nil {
@@ -1018,6 +1027,13 @@ func main() {
 	if *out == "" {
 		fmt.Fprintln(os.Stderr, "-out required")
 		os.Exit(2)
+	}
+	if *forcecfg != "" {
+		var c Config
+		var ci int64
+		fmt.Sscanf(*forcecfg, "%d,%d,%d,%d,%d,%d", &c.PageSize, &c.AutoVacuum, &c.MinCheckpointPageN, &c.TruncatePageN, &ci, &c.MaxSyncWALBytes)
+		c.CheckpointInterval = time.Duration(ci)
+		forcedConfig = &c
 	}
 	cw, err := NewCaseWriter(filepath.Join(*out, "cases.txt"))
 	if err != nil {
